@@ -125,11 +125,18 @@ Proof.
   constructor; [|constructor]. cbn. split; [unfold RR; lia|assumption].
 Qed.
 
+Lemma send_poll_ok e e' out : ep_ok e -> send_poll e = (e', out) ->
+  ep_ok e' /\ Forall frame_wf out.
+Proof.
+  intros [] H. cbn in H. injection H as <- <-. split; [constructor; cbn; auto|].
+  constructor; [|constructor]. cbn. split; [unfold RR; lia|assumption].
+Qed.
+
 Lemma retx_timeout_ok e e' out : ep_ok e -> retx_timeout e = (e', out) ->
   ep_ok e' /\ Forall frame_wf out.
 Proof.
   intros Hk H. unfold retx_timeout in H. destruct (e_rrarm e).
-  - eapply send_rr_ok; [|exact H]. destruct Hk. constructor; cbn; auto.
+  - eapply send_poll_ok; [|exact H]. destruct Hk. constructor; cbn; auto.
   - injection H as <- <-. split; [assumption|constructor].
 Qed.
 
@@ -139,7 +146,7 @@ Proof.
   intros Hk H. unfold mon_timeout in H.
   destruct (e_mon e); try (injection H as <- <-; split; [assumption|constructor]).
   destruct (_ || _).
-  - eapply send_rr_ok; [|exact H]. destruct Hk. constructor; cbn; auto.
+  - eapply send_poll_ok; [|exact H]. destruct Hk. constructor; cbn; auto.
   - injection H as <- <-. split; [|constructor]. destruct Hk. constructor; cbn; auto.
 Qed.
 
@@ -200,7 +207,9 @@ Proof.
 Qed.
 
 (* ---------- draining ---------- *)
-Definition fweight (f : frame) : Z := match f with IFrame _ _ _ _ _ => 2 | SFrame _ _ _ _ => 1 end.
+(* a poll weighs 2: consuming it produces its answer *)
+Definition fweight (f : frame) : Z :=
+  match f with IFrame _ _ _ _ _ => 2 | SFrame _ true _ _ => 2 | SFrame _ false _ _ => 1 end.
 Fixpoint weight (fs : list frame) : Z :=
   match fs with [] => 0 | f :: r => fweight f + weight r end.
 
@@ -212,7 +221,9 @@ Proof.
   rewrite zlen_cons, IH. unfold iframe_of. cbn [fweight]. lia.
 Qed.
 Lemma weight_nonneg fs : 0 <= weight fs.
-Proof. induction fs as [|f r IH]; cbn [weight]; [lia|]. destruct f; cbn [fweight]; lia. Qed.
+Proof.
+  induction fs as [|f r IH]; cbn [weight]; [lia|]. destruct f as [| ? [] ? ?]; cbn [fweight]; lia.
+Qed.
 
 Definition measure (s : sys) : Z :=
   3 * (zlen (e_pend (s_a s)) + zlen (e_pend (s_b s))) + weight (s_ab s) + weight (s_ba s).
@@ -245,10 +256,12 @@ Proof.
     + injection H as <- <- <-. cbn [e_pend]. lia.
     + cbn [send_rr] in H. injection H as <- <- <-. rewrite weight_app.
       cbn [e_pend weight fweight]. lia.
-  - intros H [-> ->]. destruct (update_ack e req final) as [e1 out1] eqn:Hu.
-    apply update_ack_measure in Hu. cbn [Z.eqb RR RNR orb andb] in H.
-    replace ((0 =? 0) || (0 =? 2)) with true in H by reflexivity. cbn [andb] in H.
-    injection H as <- <- <-. cbn [e_pend]. lia.
+  - intros H ->. destruct (update_ack e req final) as [e1 out1] eqn:Hu.
+    apply update_ack_measure in Hu.
+    change ((RR =? RR) || (RR =? RNR)) with true in H. cbn [andb] in H. destruct poll.
+    + cbn [send_rr] in H. injection H as <- <- <-. rewrite weight_app.
+      cbn [e_pend weight fweight]. lia.
+    + injection H as <- <- <-. cbn [e_pend]. lia.
 Qed.
 
 Definition is_delivery (l : label) : bool :=
